@@ -19,7 +19,7 @@ package httpcache
 //@   ensures forall k string :: joinAll(result.Header, k) == joinAll(req.Header, k)                                           # name: same-field-lines
 
 //@ func withConditionalHeaders
-//@   property C02 C16 C18
+//@   property C02 C16 C18 C20
 //@   requires req != nil
 //@   pure
 //@   let etag = hget(storedHdr, "Etag")
@@ -71,9 +71,10 @@ package httpcache
 // only-if-cached request (C18). Its body (goroutine, channel, select) is outside the
 // supported subset; only its precondition is used, at the `go` statement that spawns it.
 //@ func (*transport).backgroundRevalidate
-//@   trusted
 //@   property C18 C20 C08
+//@   nosafety
 //@   requires wired(r) && req != nil && req.URL != nil && freshness != nil && freshness.Age != nil          # name: well-formed
+//@   requires r.swrTimeout > 0                                             # name: timeout-configured   props: C20
 //@   requires !reqOIC(req)                                                 # name: not-only-if-cached   props: C18
 //@   requires req.Method == "GET" && hget(req.Header, "Range") == ""       # name: plain-get   props: C06 C03
 //@   requires hasArr(ccReq) == dirsHas(ccText(req.Header))                 # name: request-directives-are-the-requests
@@ -93,14 +94,17 @@ package httpcache
 //@   assigns *
 
 //@ func (*transport).handleStaleWhileRevalidate
-//@   property C01 C02 C18 C20 C11 C08
+//@   property C01 C02 C18 C20 C11 C08 C09
 //@   requires wired(r) && req != nil && stored != nil && stored.Data != nil && stored.Data.Header != nil && freshness != nil && freshness.Age != nil
 //@   requires !reqOIC(req)                                                 # name: not-only-if-cached   props: C18
+//@   requires r.swrTimeout > 0                                             # name: timeout-configured   props: C20
 //@   requires req.Header != stored.Data.Header                             # name: request-header-not-shared
 //@   requires req.URL != nil && req.Method == "GET" && hget(req.Header, "Range") == "" && hasArr(ccReq) == dirsHas(ccText(req.Header))   # name: plain-get
 //@   requires refs == indexRead || len(refs) == 0                          # name: refs-is-the-index-read-in-this-exchange   props: C08
 //@   assigns *
 //@   ensures result0 == old(stored.Data) && result1 == nil                         # name: returns-stored
+//@   ensures lastVerdictStale == old(lastVerdictStale)                             # name: no-new-freshness-verdict   props: C09
+//@   ensures goroutinesSpawned == old(goroutinesSpawned) + 1                       # name: exactly-one-background-revalidation   props: C20
 //@   ensures upstreamCalls == old(upstreamCalls)                                    # name: no-upstream-in-foreground
 //@   ensures result0 != nil                                                         # name: non-nil
 //@   ensures exists n int :: hget(result0.Header, "Age") == itoa(n) && n >= secsOf(old(fAge(freshness, now)))        # name: age-generated   props: C11
@@ -109,10 +113,11 @@ package httpcache
 //@   ensures dirsHas(old(ccText(stored.Data.Header)))["no-cache"] ==> (forall j int :: 0 <= j && j < csvN(ncW) && !cacheOwnField(canon(csvAt(ncW, j))) ==> !has(result0.Header, canon(csvAt(ncW, j))))   # name: qualified-no-cache-fields-stripped   props: C02
 
 //@ func (*transport).handleCacheHit
-//@   property C01 C02 C18 C06 C11 C08
+//@   property C01 C02 C18 C06 C11 C08 C09 C13 C20
 //@   requires wired(r) && req != nil && req.URL != nil && stored != nil && stored.Data != nil && stored.Data.Header != nil
 //@   requires req.Method == "GET" && hget(req.Header, "Range") == ""                       # name: plain-get   props: C06 C03
 //@   requires req.Header != stored.Data.Header                                             # name: request-header-not-shared
+//@   requires r.swrTimeout > 0                                                             # name: timeout-configured   props: C20
 //@   requires refs == indexRead || len(refs) == 0                                          # name: refs-is-the-index-read-in-this-exchange   props: C08
 //@   requires 0 <= refIndex && refIndex < len(refs) && refs[refIndex] != nil && variantMatches(refs[refIndex], req.Header)   # name: the-variant-matches-the-request   props: C04
 //@   requires !sharesID(refs, refIndex) && loadedFrom(stored) == refs[refIndex].ResponseID    # name: loaded-under-an-id-no-other-variant-shares   props: C04
@@ -143,6 +148,8 @@ package httpcache
 //@   ensures result0 != nil && upstreamCalls != old(upstreamCalls) ==> (result0 == old(stored.Data) && (statusIs(result0.Header, "REVALIDATED", true) || statusIs(result0.Header, "STALE", true))) || (result0 != old(stored.Data) && (cstatus(result0.Header) == "MISS" || cstatus(result0.Header) == "BYPASS") && len(get(result0.Header, "X-Httpcache-Status")) == 1 && !has(result0.Header, "X-From-Cache"))   # name: validated-reply-marked   props: C11
 //@   ensures (result0 != nil) != (result1 != nil)                                        # name: result-shape   props: C10
 //@   ensures upstreamCalls != old(upstreamCalls) ==> validatedWithRealAge                # name: validation-judged-by-the-real-age   props: C11 C13 C02
+//@   ensures goroutinesSpawned == old(goroutinesSpawned) || (goroutinesSpawned == old(goroutinesSpawned) + 1 && upstreamCalls == old(upstreamCalls) && result0 == old(stored.Data))   # name: at-most-one-background-revalidation-and-then-answers-at-once   props: C20
+//@   ensures tq == "" && !unqualNoCacheA(hs, vs) && !lastVerdictStale ==> served && statusIs(result0.Header, "HIT", true)   # name: fresh-matching-response-is-served-from-the-store   props: C09
 
 //@ spec func reqOIC(req *http.Request) bool = dirsHas(ccText(req.Header))["only-if-cached"]
 
@@ -173,8 +180,9 @@ package httpcache
 //@   ensures forall x string :: old(deletedKeys)[x] ==> deletedKeys[x]                     # name: deletions-accumulate   props: C07
 
 //@ func (*transport).RoundTrip
-//@   property C18 C10 C06 C03 C11 C07 C08 C04
+//@   property C18 C10 C06 C03 C11 C07 C08 C04 C20
 //@   requires wired(r) && req != nil && req.URL != nil
+//@   requires r.swrTimeout > 0                                                             # name: timeout-configured   props: C20
 //@   assigns *
 //@   ensures (result0 != nil) != (result1 != nil)                                          # name: result-shape   props: C10
 //@   ensures old(reqOIC(req)) ==> upstreamCalls == old(upstreamCalls)                      # name: only-if-cached-no-network   props: C18
@@ -223,3 +231,33 @@ package httpcache
 //@   ensures result0 == old(stored.Data) && validated304 && storeWrites != old(storeWrites) ==> lastStoredResp == result0 && lastStoredReqTime == start && lastStoredRespTime == end && lastStoredRefIndex == refIndex   # name: freshened-response-written-back-with-restarted-age   props: C08
 //@   ensures result0 == old(stored.Data) && !validated304 ==> storeWrites == old(storeWrites)      # name: stale-if-error-does-not-store   props: C08
 //@   ensures result0 == resp && storeWrites != old(storeWrites) ==> lastStoredResp == resp && lastStoredReqTime == start && lastStoredRespTime == end && lastStoredRefIndex == refIndex   # name: full-reply-replaces-the-matched-variant   props: C08
+
+// ---- construction (C20): the transport handed out is fully wired and its
+// stale-while-revalidate timeout is positive - the option's value when that is positive, else
+// the 5 s default. swrOpt(o)/swrOptVal(o): o was built by WithSWRTimeout(d) (definition; the
+// contract of Option.apply for such options is the verified contract of the closure
+// WithSWRTimeout$1 - optionFunc.apply calls the closure, a link made by inspection).
+//@ spec func swrOpt(o Option) bool
+//@ spec func swrOptVal(o Option) time.Duration
+//@ iface Option.apply(o, r)
+//@   assigns r.upstream, r.swrTimeout, r.logger, r.clock
+//@   ensures swrOpt(o) ==> r.swrTimeout == swrOptVal(o)
+//@   ensures !swrOpt(o) ==> r.swrTimeout == old(r.swrTimeout)
+//@   ensures r.clock != nil || old(r.clock) == nil
+//@ func WithSWRTimeout$1
+//@   property C20
+//@   requires r != nil && timeout != nil
+//@   assigns r.swrTimeout
+//@   ensures r.swrTimeout == *timeout                                                     # name: option-sets-the-timeout
+//@ func newTransport
+//@   property C20
+//@   nosafety
+//@   requires conn != nil && http.DefaultTransport != nil
+//@   assigns *
+//@   ensures result != nil && typeis(result, *transport) && wired(as(result, *transport))                       # name: fully-wired
+//@   ensures as(result, *transport).swrTimeout > 0                                                               # name: swr-timeout-positive
+//@   ensures (forall j int :: 0 <= j && j < len(options) ==> !swrOpt(options[j])) ==> as(result, *transport).swrTimeout == 5000000000   # name: default-is-five-seconds
+//@   ensures len(options) == 1 && swrOpt(options[0]) ==> as(result, *transport).swrTimeout == ite(swrOptVal(options[0]) > 0, swrOptVal(options[0]), 5000000000)   # name: non-positive-setting-falls-back-to-the-default
+//@   loop 0 invariant -1 <= rangeindex && rangeindex < len(options) && rt != nil && fresh(rt) && rt.cache != nil && rt.rmc != nil && rt.vm != nil && rt.uk != nil && rt.ce != nil && rt.clock != nil
+//@   loop 0 invariant (forall j int :: 0 <= j && j <= rangeindex ==> !swrOpt(options[j])) ==> rt.swrTimeout == 0
+//@   loop 0 invariant len(options) == 1 && rangeindex == 0 && swrOpt(options[0]) ==> rt.swrTimeout == swrOptVal(options[0])
